@@ -1,16 +1,21 @@
 namespace Mw.Cert
-abbrev Str := List Char
-abbrev Fp := Nat   -- fingerprints are opaque, only equality matters
+/-! # `CertificateAuth`: path rules, the reference policy and the middleware
+
+Strings (`rule.prefix`, canonical request paths, locations of resources) are Python `str`
+values as lists of code points; `/` is 47.  Fingerprints are opaque (only equality matters). -/
+abbrev Str := List Nat
+abbrev Fp := Nat
 
 structure Rule where
   pre : Str
   requireCert : Bool
   allowed : Option (List Fp)    -- none = no list; some [] = nobody
-deriving Repr
+deriving Repr, DecidableEq
 
 inductive Decision where | allow | d60 | d61
 deriving Repr, DecidableEq
 
+/-- the body of the loop in `CertificateAuth.process_request` for the matching rule -/
 def applyRule (r : Rule) (fp : Option Fp) : Decision :=
   if r.requireCert && fp.isNone then .d60
   else match r.allowed with
@@ -18,6 +23,19 @@ def applyRule (r : Rule) (fp : Option Fp) : Decision :=
     | some l => match fp with
       | none => .d60
       | some f => if l.contains f then .allow else .d61
+
+/-- the response line sent for a refusal -/
+def line60 : List Nat :=
+  [54, 48, 32, 67, 108, 105, 101, 110, 116, 32, 99, 101, 114, 116, 105, 102, 105, 99, 97, 116, 101, 32, 114, 101, 113,
+   117, 105, 114, 101, 100, 13, 10]
+def line61 : List Nat :=
+  [54, 49, 32, 67, 101, 114, 116, 105, 102, 105, 99, 97, 116, 101, 32, 110, 111, 116, 32, 97, 117, 116, 104, 111, 114,
+   105, 122, 101, 100, 13, 10]
+
+def Decision.line : Decision → Option (List Nat)
+  | .allow => none
+  | .d60 => some line60
+  | .d61 => some line61
 
 /-! ### specification: the first rule whose prefix covers the *location of the resource* decides -/
 def firstCover : List Rule → Str → Option Rule
@@ -38,36 +56,69 @@ theorem applyRule_allow_iff (r : Rule) (fp : Option Fp) :
   cases hq : r.requireCert <;> cases fp <;> cases ha : r.allowed <;> simp
   all_goals (split <;> simp_all)
 
-def DirPrefix (p : Str) : Prop := ∃ q, p = q ++ ['/']
+/-- decision table: 60 exactly when a certificate is needed (required, or a list is given) and
+    none was presented; 61 exactly when one was presented and a list is given that does not
+    contain it; otherwise the request passes -/
+theorem applyRule_table (r : Rule) (fp : Option Fp) :
+    applyRule r fp =
+      match fp, r.allowed with
+      | none, none => if r.requireCert then .d60 else .allow
+      | none, some _ => .d60
+      | some _, none => .allow
+      | some f, some l => if f ∈ l then .allow else .d61 := by
+  unfold applyRule
+  cases fp <;> cases r.allowed <;> cases r.requireCert <;> simp
+
+theorem applyRule_d60_iff (r : Rule) (fp : Option Fp) :
+    applyRule r fp = .d60 ↔ fp = none ∧ (r.requireCert = true ∨ r.allowed.isSome = true) := by
+  rw [applyRule_table]
+  cases fp <;> cases r.allowed <;> cases r.requireCert <;> simp
+  all_goals (split <;> simp)
+
+theorem applyRule_d61_iff (r : Rule) (fp : Option Fp) :
+    applyRule r fp = .d61 ↔ ∃ f l, fp = some f ∧ r.allowed = some l ∧ f ∉ l := by
+  rw [applyRule_table]
+  cases fp <;> cases r.allowed <;> cases r.requireCert <;> simp
+  all_goals (split <;> simp_all)
+
+/-- an empty allow-list admits nobody; a missing one (without `require_cert`) admits everybody -/
+theorem empty_list_admits_nobody (r : Rule) (h : r.allowed = some []) (fp : Option Fp) : applyRule r fp ≠ .allow := by
+  rw [applyRule_table, h]
+  cases fp <;> simp
+
+theorem no_list_admits (r : Rule) (h : r.allowed = none) (hq : r.requireCert = false) (fp : Option Fp) :
+    applyRule r fp = .allow := by
+  rw [applyRule_table, h, hq]
+  cases fp <;> simp
+
+def DirPrefix (p : Str) : Prop := ∃ q, p = q ++ [47]
 
 theorem isPrefixOf_iff {a b : Str} : a.isPrefixOf b = true ↔ a <+: b := by
   simpa using (List.isPrefixOf_iff_prefix (l₁ := a) (l₂ := b))
 
 /-- a prefix ending in `/` covers `dir/name` (name without `/`) iff it covers `dir/` -/
-theorem dirPrefix_file {p dir name : Str} (hp : DirPrefix p) (hn : '/' ∉ name) :
-    p <+: dir ++ ['/'] ++ name ↔ p <+: dir ++ ['/'] := by
+theorem dirPrefix_file {p dir name : Str} (hp : DirPrefix p) (hn : 47 ∉ name) :
+    p <+: dir ++ [47] ++ name ↔ p <+: dir ++ [47] := by
   obtain ⟨q, rfl⟩ := hp
   constructor
   · intro h
     obtain ⟨t, ht⟩ := h
-    -- q ++ "/" ++ t = dir ++ "/" ++ name ; the '/' of p cannot lie inside name
-    by_cases hlen : (q ++ ['/']).length ≤ (dir ++ ['/']).length
+    by_cases hlen : (q ++ [47]).length ≤ (dir ++ [47]).length
     · exact (List.prefix_of_prefix_length_le ⟨t, ht⟩ (List.prefix_append _ _) hlen)
     · exfalso
-      have hlt : (dir ++ ['/']).length < (q ++ ['/']).length := by omega
-      have h2 : dir ++ ['/'] <+: q ++ ['/'] := by
+      have hlt : (dir ++ [47]).length < (q ++ [47]).length := by omega
+      have h2 : dir ++ [47] <+: q ++ [47] := by
         apply List.prefix_of_prefix_length_le (List.prefix_append _ name) ⟨t, ht⟩ (by omega)
       obtain ⟨u, hu⟩ := h2
       have hu_ne : u ≠ [] := by
         intro hnil; subst hnil; simp at hu; simp [hu] at hlt
-      -- then name = u ++ t, and u ends with '/'
       have : name = u ++ t := by
         have := ht; rw [← hu] at this
         simp only [List.append_assoc] at this
         have := List.append_cancel_left this
         simpa using this.symm
-      have hlast : '/' ∈ u := by
-        have hq : (dir ++ ['/'] ++ u).getLast? = some '/' := by rw [hu]; simp
+      have hlast : 47 ∈ u := by
+        have hq : (dir ++ [47] ++ u).getLast? = some 47 := by rw [hu]; simp
         rw [List.getLast?_append] at hq
         cases hul : u.getLast? with
         | none => simp [List.getLast?_eq_none_iff] at hul; exact absurd hul hu_ne
@@ -76,14 +127,14 @@ theorem dirPrefix_file {p dir name : Str} (hp : DirPrefix p) (hn : '/' ∉ name)
   · intro h
     exact h.trans (List.prefix_append _ _)
 
-/-- repaired `CertificateAuth.process_request`, on the canonical path: the rule for the path
-    itself, and — when the path does not end in `/` and may therefore name a directory — also
-    the rule for `path/`; the request passes only if both admit -/
+/-- `CertificateAuth.process_request` on the canonical path: the rule for the path itself, and —
+    when the path does not end in `/` and may therefore name a directory — also the rule for
+    `path/`; the request passes only if both admit -/
 def stricter (a b : Decision) : Decision := if a = .allow then b else a
 
 def process (rules : List Rule) (path : Str) (fp : Option Fp) : Decision :=
   stricter (policy rules path fp)
-    (if path.getLast? = some '/' then .allow else policy rules (path ++ ['/']) fp)
+    (if path.getLast? = some 47 then .allow else policy rules (path ++ [47]) fp)
 
 theorem firstCover_congr {rules : List Rule} {l₁ l₂ : Str}
     (h : ∀ r ∈ rules, (r.pre <+: l₁ ↔ r.pre <+: l₂)) : firstCover rules l₁ = firstCover rules l₂ := by
@@ -107,12 +158,15 @@ theorem firstCover_congr {rules : List Rule} {l₁ l₂ : Str}
         | true => exact absurd (isPrefixOf_iff.mp hh) h2
       simp [e1, e2, ih']
 
-/-- the location of what the static handler delivers for canonical request path `path` -/
+/-- the canonical location of what the static handler delivers for canonical request path `path`
+    (a path with a trailing slash never yields a regular file: `StaticFileHandler.handle`
+    answers 51 for `<file>/`) -/
 inductive Served (path : Str) : Str → Prop
-  | file : path.getLast? ≠ some '/' → Served path path
-  | dirSlash (index : Str) : path.getLast? = some '/' → '/' ∉ index → Served path (path ++ index)
-  | dirListing : path.getLast? = some '/' → Served path path
-  | dirNoSlash (index : Str) : path.getLast? ≠ some '/' → '/' ∉ index → Served path (path ++ ['/'] ++ index)
+  | file : path.getLast? ≠ some 47 → Served path path
+  | dirSlash (index : Str) : path.getLast? = some 47 → 47 ∉ index → Served path (path ++ index)
+  | dirListing : path.getLast? = some 47 → Served path path
+  | dirNoSlash (index : Str) : path.getLast? ≠ some 47 → 47 ∉ index → Served path (path ++ [47] ++ index)
+  | dirNoSlashListing : path.getLast? ≠ some 47 → Served path (path ++ [47])
 
 /-- C05 core (rule prefixes are directory prefixes): whatever is delivered for a request the
     middleware let through is admitted by the first rule covering its own location -/
@@ -133,7 +187,7 @@ theorem c05_core (rules : List Rule) (hd : ∀ r ∈ rules, DirPrefix r.pre) (pa
       split at hp
       · assumption
       · rename_i h; simp_all
-    obtain ⟨d, hdp⟩ : ∃ d, path = d ++ ['/'] := List.getLast?_eq_some_iff.mp hl
+    obtain ⟨d, hdp⟩ : ∃ d, path = d ++ [47] := List.getLast?_eq_some_iff.mp hl
     have : firstCover rules (path ++ index) = firstCover rules path := by
       apply firstCover_congr
       intro r hr
@@ -141,14 +195,53 @@ theorem c05_core (rules : List Rule) (hd : ∀ r ∈ rules, DirPrefix r.pre) (pa
       exact dirPrefix_file (hd r hr) hi
     simpa [policy, this] using h1
   | dirNoSlash index hne hi =>
-    have h2 : policy rules (path ++ ['/']) fp = .allow := by
+    have h2 : policy rules (path ++ [47]) fp = .allow := by
       split at hp
       · simpa [hne] using hp
       · rename_i h; simp_all
-    have : firstCover rules (path ++ ['/'] ++ index) = firstCover rules (path ++ ['/']) := by
+    have : firstCover rules (path ++ [47] ++ index) = firstCover rules (path ++ [47]) := by
       apply firstCover_congr
       intro r hr
       exact dirPrefix_file (hd r hr) hi
     unfold policy at h2 ⊢
     rw [this]; exact h2
+  | dirNoSlashListing hne =>
+    split at hp
+    · simpa [hne] using hp
+    · rename_i h; simp_all
+
+/-- the contrapositive, as the property is worded: a refused certificate gets 60 or 61 and the
+    middleware does not pass the request -/
+theorem c05_refuses (rules : List Rule) (hd : ∀ r ∈ rules, DirPrefix r.pre) (path loc : Str) (fp : Option Fp)
+    (hs : Served path loc) (hpol : policy rules loc fp ≠ .allow) :
+    process rules path fp = .d60 ∨ process rules path fp = .d61 := by
+  cases h : process rules path fp with
+  | allow => exact absurd (c05_core rules hd path loc fp hs h) hpol
+  | d60 => exact Or.inl rfl
+  | d61 => exact Or.inr rfl
+
+/-! ### the TOML / `ServerConfig` layer -/
+/-- one `[[certificate_auth.paths]]` table: `require_cert` and `allowed_fingerprints` optional -/
+structure PathCfg where
+  pre : Str
+  requireCert : Option Bool
+  allowed : Option (List Fp)       -- `some []` = the key is present with an empty list
+deriving Repr, DecidableEq
+
+/-- one rule of `ServerConfig.get_certificate_auth_config` -/
+def ruleOf (c : PathCfg) : Rule :=
+  { pre := c.pre, requireCert := c.requireCert.getD false, allowed := c.allowed }
+
+/-- `get_certificate_auth_config`: no middleware at all when the list is absent or empty -/
+def rulesOf (paths : Option (List PathCfg)) : Option (List Rule) :=
+  match paths with
+  | none => none
+  | some [] => none
+  | some ps => some (ps.map ruleOf)
+
+/-- what the server enforces for a configuration: without middleware everything passes -/
+def enforced (paths : Option (List PathCfg)) (path : Str) (fp : Option Fp) : Decision :=
+  match rulesOf paths with
+  | none => .allow
+  | some rules => process rules path fp
 end Mw.Cert
